@@ -188,6 +188,65 @@ def _build(ports_cfg: PortsCfg, template: int = 0, builder=None, prefix=None):
     return [(f.filename, f.contents, f.hash) for f in (builder or Builder()).build(cfg).files]
 
 
+def h_late_set(template: int, k: int) -> bool:
+    """A name set that is completed AFTER it was handed to PortSelect (the selection keeps a reference
+    to the caller's set): at build time the configuration equals the one built from the complete set,
+    so text and files must be equal too."""
+    names = NAMES_C if template >= 5 else (NAMES_P if template in (3, 4) else NAMES_R)
+    k = pick(range(1, 3), k - 1)
+    full = make_cfg(template, (0, 1, 2), plain=True)
+    late = make_cfg(template, (0, 1, 2), plain=True)
+    # rebuild `late` from selections whose sets start incomplete
+    def shrink_then_grow(cfg):
+        grown = []
+        for side in (cfg.provides, cfg.requires):
+            for sel in (side.sts, side.mts):
+                if isinstance(sel.value, set) and len(sel.value) > k:
+                    removed = sorted(sel.value)[k:]
+                    for n in removed:
+                        sel.value.discard(n)
+                    grown.append((sel.value, removed))
+        return grown
+    pending = shrink_then_grow(late)
+    text_before = str(late)                 # rendering the incomplete configuration is legitimate ...
+    for target, removed in pending:
+        for n in removed:
+            target.add(n)                   # ... the caller completes its sets afterwards
+    if late != full:
+        return False
+    return text_before is not None and str(late) == str(full) and _build(late, template) == _build(full, template)
+
+
+def h_environment(template: int, which: int) -> bool:
+    """The file system around the process is not an input: the source file named in the configuration
+    may be absent, a regular file, or a symbolic link to a differently named file."""
+    from vf.fast import run_native
+    return run_native(_environment_case, pick(range(7), template), pick(range(3), which))
+
+
+def _environment_case(template: int, which: int) -> bool:
+    import os
+    import tempfile
+    import shutil
+    ref = _build(make_cfg(template, (0, 1, 2)), template)
+    tmp = tempfile.mkdtemp(prefix='vf_c08_env_')
+    old = os.getcwd()
+    try:
+        os.chdir(tmp)
+        if which == 1:
+            with open('M.dzn', 'w', encoding='utf-8') as fh:
+                fh.write('// model')
+        elif which == 2:
+            os.makedirs('store')
+            with open(os.path.join('store', '3f9a-Other.dzn'), 'w', encoding='utf-8') as fh:
+                fh.write('// model')
+            os.symlink(os.path.join('store', '3f9a-Other.dzn'), 'M.dzn')
+        return _build(make_cfg(template, (0, 1, 2)), template) == ref
+    finally:
+        os.chdir(old)
+        shutil.rmtree(tmp, ignore_errors=True)
+
+
 PREFIXES = [None, 'My.Sup', 'Other']
 
 
@@ -313,6 +372,12 @@ SPECS = [
       shards=lambda p: [f'template == {t}' for t in range(7)],
       bounds='full Builder.build on a 3+3-port component, 7 templates x 6 iteration orders of the explicit '
              'sets x 3 iteration orders of library-created sets'),
+    H('h_late_set', 'deep', pre=['0 <= template <= 6', '1 <= k <= 2'],
+      quick=dict(ct=200, pt=120), thorough=dict(ct=600, pt=200),
+      bounds='7 templates: explicit name sets completed after construction of the selection (1 or 2 names first)'),
+    H('h_environment', 'deep', pre=['0 <= template <= 6', '0 <= which <= 2'],
+      quick=dict(ct=200, pt=120), thorough=dict(ct=600, pt=200),
+      bounds='7 templates x source file absent / regular file / symlink to a differently named file in the cwd'),
     H('h_builder_reuse', 'deep', pre=['0 <= ta < 7', '0 <= tb < 7', '0 <= pa < 3', '0 <= pb < 3'],
       quick=dict(ct=280, pt=120), thorough=dict(ct=900, pt=200),
       shards=lambda p: [f'ta == {t}' for t in range(7)],
